@@ -184,7 +184,7 @@ class C12(Check):
         out = [('v2', ch) for ch in chunked(streams, 96 if self.tier == 'thorough' else 32)]
         L3 = 1 if self.tier == 'quick' else 2
         streams3 = list(seqs(pool, L3))
-        out += [('v3', ch) for ch in chunked(streams3, 32)]
+        out += [('v3', ch, part) for ch in chunked(streams3, 32) for part in range(8)]
         out += [('reconf', i) for i in range(len(RECONF))]
         out.append(('long',))
         return out
@@ -217,7 +217,7 @@ class C12(Check):
             return self.run_long(acc)
         if desc[0] == 'reconf':
             return self.run_reconf(desc[1], acc)
-        kind, streams = desc
+        kind, streams = desc[0], desc[1]
         CL, SL = class_lists(), subclass_lists()
         if kind == 'v2':
             for stream in streams:
@@ -228,7 +228,7 @@ class C12(Check):
         else:
             CL3 = [[], [4], [7, 3], (1,), [0xff, 4], [3]]
             SL3 = [[], [0x40c], [0x301, 0x140], (0x40d,)]
-            logseqs = list(seqs(range(len(LOGS)), 2))
+            logseqs = [l for i, l in enumerate(seqs(range(len(LOGS)), 2)) if i % 8 == desc[2]]
             for stream in streams:
                 for logs in logseqs:
                     if self.tier == 'quick' and stream and len(logs) > 1:
